@@ -266,6 +266,16 @@ impl Send {
             // the reset frame before transitioning the stream inside
             // `reclaim_all_capacity`.
             self.prioritize.clear_queue(buffer, stream);
+        } else {
+            // Only the HEADERS that open the stream have to survive. DATA or
+            // trailers queued behind them must be discarded like for any
+            // other reset: they would be sent ahead of the RST_STREAM, and
+            // DATA that is waiting for window would hold it back forever.
+            let headers = stream.pending_send.pop_front(buffer);
+            self.prioritize.clear_queue(buffer, stream);
+            if let Some(headers) = headers {
+                stream.pending_send.push_back(buffer, headers);
+            }
         }
 
         let frame = frame::Reset::new(stream.id, reason);
